@@ -15,7 +15,7 @@ ASSUMPTIONS = ["the comparison is against the library's own computation on a fre
 NSHARDS = {"quick": 32, "thorough": 64}
 BUDGET_S = {"quick": 200, "thorough": 2400}
 MIN_HITS = {
-    'quick': {"history": 10619, "sighash_step": 9445, "probe": 123661, "mut_after_fill": 3177, "slots_nonempty": 13262, "op_set_input": 6464, "op_set_output": 4867, "long_history": 48},
+    'quick': {"history": 13029, "sighash_step": 9899, "probe": 143262, "mut_after_fill": 3681, "slots_nonempty": 14135, "op_set_input": 8607, "op_set_output": 5176, "long_history": 48},
     'thorough': {"history": 367608, "sighash_step": 1038509, "probe": 7707805, "mut_after_fill": 167301, "op_set_input": 664443, "op_set_output": 498246, "long_history": 5760},
 }
 
@@ -30,6 +30,10 @@ ALPHABET = [
     "hi41",
     # Clone::clone_from: the live object is overwritten in place by another transaction (its caches must go with it)
     "clone_from",
+    # every read accessor of the transaction, called between the sighash calls
+    "accessors",
+    # replacement that changes only the extended (non-wire) fields of an input: recorded satoshis + locking script
+    "set_input_ext",
 ]
 FILLERS = {"sh41", "sh42", "shc1", "sh43", "hi41"}
 PROBES = [
@@ -142,6 +146,17 @@ def step_of(sym, pos, model, r=None):
         return {"op": sym, "v": 0x0A0B0C00 + pos, "adopt": bool(pos & 1)}
     if sym == "clone":
         return {"op": "clone"}
+    if sym == "accessors":
+        return {"op": "accessors"}
+    if sym == "set_input_ext":
+        if n_in == 0:
+            return None
+        at = pick(n_in)
+        i = dict(model.ins[at])
+        i["satoshis"] = 777000 + pos
+        i["locking"] = "76a914" + "33" * 20 + "88ac"
+        model.ins[at] = i
+        return {"op": "set_input", "i": at, "in": i}
     if sym == "clone_from":
         # the source differs from the live object in inputs, outputs, sequences: one new input/output added to the current model
         model.ins.append(tin(t))
